@@ -143,6 +143,9 @@ class Prov:
             if tail in ("unwrap_err", "expect_err") and len(args) >= 1:
                 return "err(%s)" % args[0]
             if tail == "len" and len(args) == 1 and ("Vec" in nm or "[T]" in nm or "slice" in nm or "String" in nm or "str" in nm):
+                n_ = self._array_len(t["args"][0]) if "[T]" in nm or "slice" in nm else None
+                if n_ is not None:
+                    return "const:%d" % n_
                 return "len(%s)" % args[0]
             return "%s(%s)" % (nm, ",".join(args))
         st = x
@@ -159,6 +162,9 @@ class Prov:
             return "%s(%s,%s)" % (op, self.operand(rv["a"], depth + 1, seen), self.operand(rv["b"], depth + 1, seen))
         if k == "unop":
             if rv["op"] == "PtrMetadata":
+                n_ = self._array_len(rv["a"])
+                if n_ is not None:
+                    return "const:%d" % n_      # length of a fixed-size array behind the (unsized) reference
                 return "len(%s)" % self.operand(rv["a"], depth + 1, seen)
             return "%s(%s)" % (rv["op"], self.operand(rv["a"], depth + 1, seen))
         if k == "discriminant":
@@ -172,6 +178,29 @@ class Prov:
         if k == "repeat":
             return "repeat(%s)" % self.operand(rv["op"], depth + 1, seen)
         return "other"
+
+    def _array_len(self, o, hops=0):
+        """N if operand o is (a reference / unsizing cast of a reference to) a local of array type [T; N]."""
+        if hops > 5 or o["k"] not in ("copy", "move") or o["place"]["proj"] not in ([], [{"p": "deref"}]) and any(e["p"] != "deref" for e in o["place"]["proj"]):
+            return None
+        l = o["place"]["local"]
+        m = re.match(r"^&?(?:mut )?\[[^;\]]+; (\d+)\]$", self.fn.locals[l]["s"])
+        if m:
+            return int(m.group(1))
+        ds = self.defs.get(l, [])
+        if len(ds) != 1 or ds[0][1] == "t":
+            return None
+        rv = ds[0][2]["rv"] if len(ds[0]) > 2 and ds[0][2].get("s") == "assign" else None
+        if rv is None:
+            return None
+        if rv["r"] in ("cast", "use"):
+            return self._array_len(rv["op"], hops + 1)
+        if rv["r"] in ("ref", "rawptr") and all(e["p"] == "deref" for e in rv["place"]["proj"]):
+            m = re.match(r"^&?(?:mut )?\[[^;\]]+; (\d+)\]$", self.fn.locals[rv["place"]["local"]]["s"])
+            if m:
+                return int(m.group(1))
+            return self._array_len({"k": "copy", "place": {"local": rv["place"]["local"], "proj": []}}, hops + 1)
+        return None
 
     def place(self, p, depth=0, seen=()):
         s = self.local(p["local"], depth, seen)
@@ -277,6 +306,19 @@ class Guards:
                 continue
             r = pg.reach([pg.entry()], avoid={e})
             self._dom[e] = (allreach - r, bb, val, vals)
+        # switches with several arms: a node behind the switch that only SOME arms can reach excludes the others
+        self._multi = []
+        by_bb = {}
+        for (e, bb, val, vals) in self._edges():
+            by_bb.setdefault(bb, []).append((e, val, vals))
+        for bb, es in by_bb.items():
+            if len(es) < 3 or ("t", bb) not in allreach:
+                continue
+            if self._variant_names(bb) is None:
+                continue
+            domset = allreach - pg.reach([pg.entry()], avoid={("t", bb)})
+            reach_k = [(val, pg.reach([e])) for (e, val, vals) in es if e in allreach]
+            self._multi.append((bb, domset, reach_k, es[0][2]))
 
     def atoms_at(self, node, _depth=0):
         if self._dom is None:
@@ -291,6 +333,17 @@ class Guards:
                 out.extend(self.describe_all(bb, val, vals))
                 if _depth < 3:
                     out.extend(self._refine(bb, val, vals, _depth))
+        for (bb, domset, reach_k, vals) in getattr(self, "_multi", []):
+            if node not in domset or node == ("t", bb):
+                continue
+            can = [val for (val, rk) in reach_k if node in rk]
+            if 0 < len(can) < len(reach_k) and len(can) > 1:
+                names = self._variant_names(bb) or {}
+                cond = self.prov.operand(self.fn.blocks[bb]["term"]["discr"])
+                inner = cond[6:-1] if cond.startswith("discr(") else cond
+                for (val, rk) in reach_k:
+                    if val not in can and val != "otherwise":
+                        out.append("%s is not %s" % (inner, names.get(val, "#" + val)))
         memo[node] = sorted(set(out))
         return memo[node]
 
